@@ -92,6 +92,11 @@ CLAIMED = {
    "Workspaces of 1..3 files (thorough 4) with every include tree, three accounts with postings in every file, amounts in two commodities drawn by rotation from 10 spellings (12 decimals, comma/point/space/Indian digit groups, decimal comma, exponent, negative), amount-less postings, unit and total costs, a payee with and without note, tags and tag values repeated across files; workspace root on/off; every file closed, all open, or one file open with an unsaved edit adding a transaction. Hover is requested at the first, middle and last character of every account, payee, tag name, tag value and amount of every file. The figures parsed back from the markdown (per-commodity balance lines, Postings, Transactions, Usage, Amount, Unit/Total cost) must equal, as exact rationals and integers, the aggregates of the model over the requesting file and its include tree (no workspace) or all workspace files (with one), each file once, editor text for open files.",
    "Inferred amounts are not part of the statement. Whether a hover must exist at a position is not checked here (C08 checks its range).",
    "DESIGN.md §4.3, §5 C20"),
+ "C19": ("model_checking",
+   "bounded-exhaustive enumeration of configuration payloads against a reference settings model, plus explicit-state BFS over sequences of configuration events with behaviour probes after every event",
+   "Payloads: each of the 24 documented keys and the alias limits.maxFileSize x 20 JSON values (null, booleans, 0/1/2/7/-1, 2.0, 1e99, strings \"\", \"3\", \" 4 \", \"true\", \"FALSE\", \"x\", arrays, objects) x 5 forms (nested, dotted, each inside a hledger wrapper, wrapper twice) x 3 channels (initializationOptions; didChangeConfiguration answered through workspace/configuration; didChangeConfiguration with pushed settings to a client that cannot be pulled); 11 whole-payload shapes; all pairs of keys from different sections with two values each. Sequences: BFS over <= 3 (4 thorough) events from a 10-payload menu with state key = effective settings. After every event: no failure; the effective settings (read through an overlay accessor) equal the reference model (well-typed value taken, non-positive numbers reset to the default, anything else keeps the previous value; numeric but not well-typed values only need a legal result); and behaviour probes: completion size and matching mode, formatting indent / alignment / minimum column, each diagnostics switch removes exactly its code, feature switches at initialize remove exactly their capability, include depth and size limits produce their verdicts.",
+   "cli.* effects are only compared as stored values (no hledger binary in the sandbox). The reference model is written from docs/configuration.md and the property statement.",
+   "DESIGN.md §4.3, §5 C19"),
 }
 
 NOT_YET = "check not built yet in this session (work in progress; see DESIGN.md §5 for the plan)"
